@@ -6,6 +6,7 @@ import CliUtils.Drv.C20
 import CliUtils.Drv.C17
 import CliUtils.Drv.C14
 import CliUtils.Drv.Sys
+import CliUtils.Drv.Filters
 import CliUtils.Drv.Status
 import CliUtils.Drv.C16
 import CliUtils.Drv.C18
@@ -32,6 +33,7 @@ def handlers : List (String × Handler) := [
   ("readstatus", C17.handleReadStatus),
   ("graph", C14.handleGraph),
   ("depgraph", C14.handleDepgraph),
+  ("policy", Filters.handlePolicy), ("depfilter", Filters.handleDepfilter),
   ("sys", SysD.handleSysFor "all"),
   ("sys-C01", SysD.handleSysFor "C01"), ("sys-C02", SysD.handleSysFor "C02"), ("sys-C03", SysD.handleSysFor "C03"),
   ("sys-C04", SysD.handleSysFor "C04"), ("sys-C05", SysD.handleSysFor "C05"), ("sys-C10", SysD.handleSysFor "C10"),
